@@ -13,6 +13,8 @@ pub enum Body {
     Builtin,
     /// shell loop (`while ... read ... echo`)
     Loop,
+    /// simulated external program (xseq / xcat / xhead / xexit): the real spawn path
+    External,
 }
 
 #[derive(Clone, Debug, Serialize, Deserialize, PartialEq)]
@@ -90,6 +92,17 @@ fn render_inner(st: &Stage, idx: usize) -> String {
     let v = format!("l{idx}");
     match (&st.role, &st.body) {
         (Role::Emit { n, tag, pad }, Body::Builtin) => format!("simseq {n} {tag} {pad}"),
+        (Role::Emit { n, tag, pad }, Body::External) => format!("xseq {n} {tag} {pad}"),
+        (Role::Copy { buf }, Body::External) => format!("xcat {buf}"),
+        (Role::Head { k, buf }, Body::External) => format!("xhead {k} {buf}"),
+        (Role::Exit { status, drain }, Body::External) => {
+            if *drain {
+                format!("xexit {status} drain")
+            } else {
+                format!("xexit {status}")
+            }
+        }
+        (Role::Count, Body::External) => format!("c{idx}=0; while IFS= read -r {v}; do c{idx}=$((c{idx}+1)); done; echo \"count=$c{idx}\""),
         (Role::Emit { n, tag, pad }, Body::Loop) => {
             let padstr = "x".repeat(*pad as usize);
             format!("i{idx}=0; while [ $i{idx} -lt {n} ]; do i{idx}=$((i{idx}+1)); echo \"{tag}${{i{idx}}}{padstr}\"; done")
@@ -134,9 +147,9 @@ fn is_compound_text(st: &Stage) -> bool {
     // whether the rendered inner text is a compound command / list (not a single simple command)
     !matches!(
         (&st.role, &st.body),
-        (Role::Emit { .. }, Body::Builtin)
-            | (Role::Copy { .. }, Body::Builtin)
-            | (Role::Head { .. }, Body::Builtin)
+        (Role::Emit { .. }, Body::Builtin | Body::External)
+            | (Role::Copy { .. }, Body::Builtin | Body::External)
+            | (Role::Head { .. }, Body::Builtin | Body::External)
             | (Role::Exit { .. }, _)
     )
 }
@@ -412,13 +425,17 @@ fn gen_wrapper(rng: &mut Rng) -> Wrapper {
 }
 
 fn gen_body(rng: &mut Rng) -> Body {
-    if rng.below(2) == 0 { Body::Builtin } else { Body::Loop }
+    match rng.below(3) {
+        0 => Body::Builtin,
+        1 => Body::Loop,
+        _ => Body::External,
+    }
 }
 
 impl C11 {
     fn gen_case(&self, seed: u64, tier: Tier) -> Case {
         let mut rng = Rng::new(seed);
-        let classes = ["small", "big", "early-exit", "cmdsubst", "shared-read", "forever", "builtin-big"];
+        let classes = ["small", "big", "early-exit", "cmdsubst", "shared-read", "forever", "builtin-big", "external-big"];
         let class = classes[rng.below(classes.len() as u64) as usize].to_string();
         let nstages = rng.range(2, if tier == Tier::Thorough { 4 } else { 4 }) as usize;
         // capacity: log-uniform 1 .. 64 KiB
@@ -450,12 +467,24 @@ impl C11 {
         if forever {
             stages.push(Stage { body: Body::Loop, wrapper: rng.pick(&[Wrapper::None, Wrapper::Brace, Wrapper::Subshell, Wrapper::Function]).clone(), role: Role::EmitForever });
         } else {
-            let (body, wrapper) = if class == "builtin-big" { (Body::Builtin, Wrapper::None) } else { (gen_body(&mut rng), gen_wrapper(&mut rng)) };
+            let (body, wrapper) = if class == "builtin-big" {
+                (Body::Builtin, Wrapper::None)
+            } else if class == "external-big" {
+                (Body::External, Wrapper::None)
+            } else {
+                (gen_body(&mut rng), gen_wrapper(&mut rng))
+            };
             stages.push(Stage { body, wrapper, role: Role::Emit { n, tag, pad } });
         }
         for i in 1..nstages {
             let last = i == nstages - 1;
-            let (body, wrapper) = if class == "builtin-big" && !last { (Body::Builtin, Wrapper::None) } else { (gen_body(&mut rng), gen_wrapper(&mut rng)) };
+            let (body, wrapper) = if class == "builtin-big" && !last {
+                (Body::Builtin, Wrapper::None)
+            } else if class == "external-big" && !last {
+                (Body::External, Wrapper::None)
+            } else {
+                (gen_body(&mut rng), gen_wrapper(&mut rng))
+            };
             let role = match class.as_str() {
                 "early-exit" | "forever" if i == 1 || rng.below(3) == 0 => {
                     if rng.below(4) == 0 {
@@ -741,7 +770,7 @@ impl Check for C11 {
                 d.stages[i].wrapper = Wrapper::None;
                 out.push(d);
             }
-            if c.stages[i].body == Body::Loop && !matches!(c.stages[i].role, Role::Tag { .. } | Role::EmitForever | Role::Count | Role::ReadThenCopy { .. }) {
+            if c.stages[i].body != Body::Builtin && !matches!(c.stages[i].role, Role::Tag { .. } | Role::EmitForever | Role::Count | Role::ReadThenCopy { .. }) {
                 let mut d = c.clone();
                 d.stages[i].body = Body::Builtin;
                 out.push(d);
@@ -783,19 +812,19 @@ impl Check for C11 {
         out.into_iter().filter_map(|c| serde_json::to_value(c).ok()).collect()
     }
     fn rule(&self) -> String {
-        "seeded pipelines of 2-4 stages (stage = {harness builtin, while-read loop} x {bare, function, brace group, subshell} with roles emit/copy/tag/head/read-then-copy/exit/count), optionally inside $( ), backquotes, a function or `!`, with pipefail on/off, through the -c / script-file / stdin front-ends, under a seeded pipe capacity (1 B-64 KiB), scheduler strategy and short reads; a case is non-trivial when some writer actually blocked on a full pipe, the payload exceeds the pipe capacity, or a consumer exits early; distinct = distinct (script text, capacity)".into()
+        "seeded pipelines of 2-4 stages (stage = {harness builtin, while-read loop, simulated external program} x {bare, function, brace group, subshell} with roles emit/copy/tag/head/read-then-copy/exit/count), optionally inside $( ), backquotes, a function or `!`, with pipefail on/off, through the -c / script-file / stdin front-ends, under a seeded pipe capacity (1 B-64 KiB), scheduler strategy and short reads; a case is non-trivial when some writer actually blocked on a full pipe, the payload exceeds the pipe capacity, or a consumer exits early; distinct = distinct (script text, capacity)".into()
     }
     fn components(&self) -> Value {
         json!({
             "real": ["brush-parser", "brush-core interp/commands/results/openfiles/expansion/jobs", "brush-builtins (echo read test printf set ...)", "brush-interactive run_interactively + minimal read_program_from (stdin front-end)"],
-            "stub": ["OS pipes -> bounded in-memory pipes with Linux blocking semantics", "tokio scheduler -> token-passing scheduler over one OS thread per task", "external programs -> harness builtins (simseq/simcat/simhead/simexit)", "sys/unix/async_pipe.rs (replaced by a drain of the simulated pipe)", "brush-shell entry.rs is exercised in a seeded fraction of the cases (verif_run: argument parsing, instantiate_shell, run_in_shell); in the others the front-end functions are called directly"]
+            "stub": ["OS pipes -> bounded in-memory pipes with Linux blocking semantics", "tokio scheduler -> token-passing scheduler over one OS thread per task", "external programs -> simulated processes (xseq/xcat/xhead/xexit run as participants over the inherited descriptors; path search, compose_std_command, ChildProcess::wait/poll and status decoding are real; fork/exec itself and sys/tokio_process.rs are not executed)", "sys/unix/async_pipe.rs (replaced by a drain of the simulated pipe)", "brush-shell entry.rs is exercised in a seeded fraction of the cases (verif_run: argument parsing, instantiate_shell, run_in_shell); in the others the front-end functions are called directly"]
         })
     }
     fn assumptions(&self) -> Vec<String> {
         vec![
             "simulated pipes follow pipe(7): blocking, writes <= min(4096, capacity) atomic, EPIPE when no reader, EOF when no writer".into(),
             "status of a writer upstream of an early-exit consumer may be 0 or 141 (timing dependent in bash itself)".into(),
-            "external filter stages are represented by builtins running in cloned shells on their own threads; the real fork/exec path is not exercised".into(),
+            "external filter stages are simulated processes: a write to a pipe without readers ends them with SIGPIPE (raw status 13), as the default disposition would".into(),
         ]
     }
 }
